@@ -109,6 +109,24 @@ var fnTable = map[string]func(a *fnArgs, o *ob){
 			o.uri(&t)
 		}
 	},
+	// ParseURIReset (C12, "parsed URI"): the object parsed s2 before (whatever the verdict), Reset(), then parses s;
+	// compared with a new object parsing s (ParseURI does not clear its output: the reset has to)
+	"ParseURIReset": func(a *fnArgs, o *ob) {
+		var u, f sipsp.PsipURI
+		sipsp.ParseURI(bytesOf(a.S2), &u)
+		u.Reset()
+		e1, n1 := sipsp.ParseURI(bytesOf(a.S), &u)
+		e2, n2 := sipsp.ParseURI(bytesOf(a.S), &f)
+		var ou, of ob
+		ou.open('{'); ou.str("err", uriErrName(e1)); ou.int("offs", n1); ou.key("raw"); uriRaw(&ou, &u); ou.close('}')
+		of.open('{'); of.str("err", uriErrName(e2)); of.int("offs", n2); of.key("raw"); uriRaw(&of, &f); of.close('}')
+		same := string(ou.b) == string(of.b)
+		o.bool("same", same)
+		if !same {
+			o.str("reused", string(ou.b))
+			o.str("fresh", string(of.b))
+		}
+	},
 	// AdjustOffs: parse s, move to newpos = {offs, len}
 	"AdjustOffs": func(a *fnArgs, o *ob) {
 		var u sipsp.PsipURI
